@@ -125,6 +125,9 @@ type explorer struct {
 	numEl  uint64
 	// set by step: the last refused operation nevertheless changed the object (the changed object is then explored too)
 	refusalChangedState bool
+	hung                bool
+	// previous signature returned to the caller and a private copy of it: a later Sign must not change it
+	prevSig, prevCopy []byte
 }
 
 func (e *explorer) fail(prop, key string, ops []Op, d map[string]any) {
@@ -223,7 +226,21 @@ type outcome struct {
 	err  error
 }
 
-func apply(k *xmss.XMSS, op Op) (o outcome) {
+// OpTimeout bounds one operation (a key object that never returns from Sign/SetIndex is a violation, not a reason to hang).
+var OpTimeout = 10 * time.Minute
+
+func apply(k *xmss.XMSS, op Op) outcome {
+	ch := make(chan outcome, 1)
+	go func() { ch <- applyNow(k, op) }()
+	select {
+	case o := <-ch:
+		return o
+	case <-time.After(OpTimeout):
+		return outcome{kind: "hang:operation did not return within " + OpTimeout.String()}
+	}
+}
+
+func applyNow(k *xmss.XMSS, op Op) (o outcome) {
 	defer func() {
 		if r := recover(); r != nil {
 			switch v := r.(type) {
@@ -268,6 +285,11 @@ func (e *explorer) step(k *xmss.XMSS, op Op, ops []Op) (accepted bool) {
 	}
 	if o.kind != "ok" && o.kind[:7] != "refused" {
 		e.fail("C02", "operation-faulted", ops, map[string]any{"index_before": idx, "observed": o.kind, "expected": "value or explicit refusal"})
+		if o.kind[:4] == "hang" {
+			e.fail("C01", "operation-did-not-return", ops, map[string]any{"observed": o.kind})
+			e.fail("C08", "operation-did-not-return", ops, map[string]any{"observed": o.kind})
+			e.hung = true
+		}
 		return false
 	}
 	if o.kind == "ok" && isSign && (o.err != nil || o.sig == nil) {
@@ -300,6 +322,13 @@ func (e *explorer) step(k *xmss.XMSS, op Op, ops []Op) (accepted bool) {
 		if len(o.sig) != want {
 			e.fail("C01", "signature-size", ops, map[string]any{"observed": len(o.sig), "expected": want})
 			return true
+		}
+		if e.prevSig != nil && !bytes.Equal(e.prevSig, e.prevCopy) {
+			e.fail("C01", "earlier-signature-overwritten-by-later-sign", ops, map[string]any{"index": idx, "meaning": "Sign returned a slice that aliases storage reused by the next Sign"})
+			e.fail("C02", "earlier-signature-overwritten-by-later-sign", ops, map[string]any{"index": idx})
+			e.prevSig = nil
+		} else {
+			e.prevSig, e.prevCopy = o.sig, append([]byte(nil), o.sig...)
 		}
 		if si := uint64(binary.BigEndian.Uint32(o.sig[:4])); si != idx {
 			e.fail("C02", "signature-index-field", ops, map[string]any{"expected": idx, "observed": si})
@@ -481,7 +510,7 @@ func Closure(c Cfg, keepTrace bool) *Res {
 		return js
 	}
 	for len(queue) > 0 {
-		if len(res.Fails) >= 5 || uint64(len(seen)) > 2*numEl+8 {
+		if e.hung || len(res.Fails) >= 5 || uint64(len(seen)) > 2*numEl+8 {
 			break // the state graph is already known to be wrong: stop instead of exploring a blown-up graph
 		}
 		s := queue[0]
@@ -691,7 +720,7 @@ func Chain(c Cfg, maxDist uint64, everyStateCheap bool, keepTrace bool, capIdx u
 			// last leaf: B must also sign to reach the exhausted state
 			e.step(b, opA, append(opsA(i), opA))
 		}
-		if len(res.Fails) >= 5 {
+		if len(res.Fails) >= 5 || e.hung {
 			break
 		}
 	}
